@@ -323,6 +323,7 @@ func RunPolicy(file string, seed int64) (*Report, error) {
 	rep := newReport()
 	good := NewWrapper("policy")
 	n := 0
+	longLived := &encrypt.Filter{}
 	err := eachLine(file, func(line string) error {
 		v := &PolicyVec{}
 		if err := decodeLine(line, v); err != nil {
@@ -338,7 +339,13 @@ func RunPolicy(file string, seed int64) (*Report, error) {
 		case 5:
 			canary = "hmac-sha256:" + canary
 		}
+		// every third vector runs on one long-lived Filter whose exported configuration is rewritten between
+		// (sequential) calls: each call is judged by the configuration in force when it is made
 		f := &encrypt.Filter{}
+		if n%3 == 0 {
+			f = longLived
+			f.Wrapper = nil
+		}
 		switch v.V.Wr {
 		case "present":
 			f.Wrapper = good
